@@ -1,6 +1,7 @@
 import BeffVerif.Driver.Codec
 import BeffVerif.Model.Hash256
 import BeffVerif.Model.Describe
+import BeffVerif.Model.RTPred
 /-! Driver handler for `(h256 <kind> <script> <env1> <rt1> <env2> <rt2> (<value>…))` (C13, Runtype level). -/
 namespace BeffVerif.Driver
 open BeffVerif RT
@@ -23,6 +24,23 @@ def h256Op (e1 r1 e2 r2 : Sexp) (vals : List Sexp) : Sexp :=
     let b := h256Side env2 rt2 vs
     .list [.atom "h256", a.1, b.1, .str a.2, .str b.2]
   | _, _, _, _, _ => .list [.atom "model-decode-error"]
+
+/-- does a named type of the environment reach itself? (names mentioned by a body, followed with fuel) -/
+def envRecursive (env : Env) : Bool :=
+  let mentions (t : RT) (n : String) : Bool := RT.anyNode (fun x => match x with | .ref m => m == n | _ => false) t
+  let step (front : List String) : List String :=
+    env.filterMap fun e => if front.any (fun f => match env.lookup f with | some t => mentions t e.1 | none => false) then some e.1 else none
+  env.any fun e =>
+    let reach := (List.range env.length).foldl (fun (acc : List String) _ => (acc ++ step acc).eraseDups) (step [e.1])
+    reach.contains e.1
+
+/-- second channel of `h256`: the 32-bit hash names a recursive back reference by the NAME of the type under expansion
+(D101b): a rewrite that introduces or removes a name for a sub-term of a recursive environment may change it -/
+def h256Hyps (script : Sexp) (e1 e2 : Sexp) : Sexp :=
+  let names : List String := match script with | .list xs => xs.filterMap (fun x => match x with | .atom a => some a | _ => none) | _ => []
+  let moves := names.any fun k => k == "extract" || k == "inline"
+  let rec_ := match decEnv e1, decEnv e2 with | some a, some b => envRecursive a || envRecursive b | _, _ => false
+  .list (.atom "hyp-failed" :: (if moves && rec_ then [Sexp.atom "NoNewBinderOnCycle"] else []))
 
 /-- `(rtd id env rt values)`: the text `describe()` prints for a parser named E0 built from the classes -/
 def rtdOp (e r : Sexp) : Sexp :=
